@@ -109,6 +109,9 @@ func judge(o *vrt.Obs, w *b2fx.PeerWorld, run *b2fx.PeerRun) {
 	for _, c := range append(res.Complaints, res.CheckOrder(truth)...) {
 		o.Violate("judge:"+c.Rule, "reference peer: %s", c.Detail)
 	}
+	// content, independent of the library's own message parser (see b2fx.CheckContent)
+	b2fx.CheckContent(o, w.LibMsgs, res.Received, "peer")
+	b2fx.CheckContent(o, w.PeerMsgs, st.Inbox(), "station under test")
 	if lst.Deadlock {
 		o.Violate("deadlock", "session and reference peer both blocked in Read with nothing in flight (peer err=%v, Exchange err=%v)", res.Err, lerr)
 	}
